@@ -23,7 +23,7 @@ EXPLANATION += (  # round-3 supplement
     ' V1 evaluates float comparison rows written via partial_cmp to the set of orderings for which they are true. V7 pointer offsetting accumulates (old position + offset).'
 )
 EXPLANATION += (
-    ' V8 host calls made by the evaluator: in every RegisterableFn::ir_function closure (16 macro instances) the j-th parameter handed to the trampoline is the from_ir_value conversion of IR argument j (argument 0 being the out pointer).'
+    ' V8 host calls made by the evaluator: in every RegisterableFn::ir_function closure (16 macro instances) the j-th parameter handed to the trampoline is the from_ir_value conversion of IR argument j (argument 0 being the out pointer). V9 Allocation::get returns the address at the given offset (element index, slice from the offset, or advanced base pointer).'
 )
 ASSUMPTIONS = [
     "Rust arithmetic on the evaluator's native integers either equals cranelift's wrapping arithmetic or panics (debug overflow checks) - both acceptable for 'agree or stop loudly'",
@@ -603,6 +603,63 @@ def rule_v8(F):
     return r
 
 
+def rule_v9(F):
+    """The evaluator hands out raw addresses into its checked memory for Clone / Drop / Eq and for the out pointer of host calls:
+    Allocation::get(offset) must return the address of byte `offset` - an element of `inner` indexed by the offset parameter, the
+    start of the slice `[offset..]`, or the base pointer advanced by `offset`.  (`[..offset].as_ptr()` is the base address for every
+    offset: a String in the second field of a record is cloned from the first field's bytes, silently.)"""
+    from .c08 import deps
+    r = RuleResult("C20.V9", "Allocation::get returns the address AT the given offset (not the base of the allocation)", floor=1)
+    ps = [p for p in F.paths() if p.endswith("lir::eval::Allocation::get") or p.endswith("Allocation::get")]
+    ps = [p for p in ps if "lir::eval" in p]
+    if not ps:
+        r.missing("lir::eval::Allocation::get")
+        return r
+    b = F.body(ps[0])
+    defs = mir.Defs(b)
+    off = "arg%d" % b.mir["argc"]
+
+    def from_off(local):
+        return local == b.mir["argc"] or any(x.split(".")[0] == off for x in deps(b, defs, local))
+    how = []
+    for bi, blk in enumerate(b.blocks):
+        for st in blk["stmts"]:
+            if st["k"] != "assign":
+                continue
+            places = []
+            rv = st["rv"]
+            if "p" in rv and isinstance(rv["p"], list):
+                places.append(rv["p"])
+            for k in ("o", "a", "b"):
+                if mir.is_place_op(rv.get(k)):
+                    places.append(rv[k][1])
+            for pl in places:
+                for e in pl[1:]:
+                    if isinstance(e, list) and e and e[0] == "i" and from_off(e[1]):
+                        how.append("element [offset]")
+    for bi, t in mir.calls(b):
+        n = hir.last(mir.callee_def(t) or mir.callee(t) or "")
+        if n in ("index", "get", "get_unchecked", "index_mut") and len(t["args"]) > 1 and mir.is_place_op(t["args"][1]):
+            for d in defs.whole_defs(t["args"][1][1][0]):
+                if d[2] == "assign" and d[3]["rv"]["k"] == "agg" and "RangeFrom" in str(d[3]["rv"].get("adt")):
+                    ops = d[3]["rv"].get("ops") or []
+                    if ops and mir.is_place_op(ops[0]) and from_off(ops[0][1][0]):
+                        how.append("slice [offset..]")
+                elif d[2] == "assign" and d[3]["rv"]["k"] == "agg" and ("RangeTo" in str(d[3]["rv"].get("adt")) or str(d[3]["rv"].get("adt")).endswith("ops::Range")):
+                    how.append("BAD slice ending at / not starting at the offset (%s)" % d[3]["rv"].get("adt"))
+            if from_off(t["args"][1][1][0]) and n != "get":
+                how.append("element [offset]")
+        if n in ("add", "byte_add", "offset", "byte_offset", "wrapping_add", "wrapping_byte_add") and len(t["args"]) > 1 and mir.is_place_op(t["args"][1]) and from_off(t["args"][1][1][0]):
+            how.append("pointer advanced by offset")
+    good = [h for h in how if not h.startswith("BAD")]
+    r.inst("Allocation::get", {"address_computed_as": sorted(set(how))})
+    if not good or any(h.startswith("BAD") for h in how):
+        r.bad(b.path, "address does not depend on the offset as a start position", relfile(b.file), b.line,
+              "Allocation::get does not return the address of byte `offset` (%s): Clone / Drop / Eq and host-call out pointers on a value that is not at offset 0 of its slot operate on "
+              "the bytes at the start of the slot instead" % (sorted(set(how)) or "the offset is not used"))
+    return r
+
+
 def rules(ctx):
     F = ctx["F"]
-    return [rule_v1(F), rule_v2(F), rule_v3(F), rule_v4(F), rule_v6(F), rule_v7(F), rule_v8(F)]
+    return [rule_v1(F), rule_v2(F), rule_v3(F), rule_v4(F), rule_v6(F), rule_v7(F), rule_v8(F), rule_v9(F)]
